@@ -150,6 +150,9 @@ class MarketSpec:
         def key(sel):
             if isinstance(sel, (list, tuple)):
                 return tuple(sel)
+            if isinstance(sel, str) and ":" in sel:  # "selection:handicap"
+                a, b = sel.split(":")
+                return (int(a), float(b) if float(b) != int(float(b)) else int(float(b)))
             for s in self.sels:
                 if s[0] == sel:
                     return s
@@ -235,7 +238,7 @@ class MarketSpec:
                 st["status"] = "CLOSED"
                 st["inplay"] = st["inplay"]
                 for sel, res in (ev[1] or {}).items():
-                    r = st["runners"][key(int(sel) if not isinstance(sel, tuple) else sel)]
+                    r = st["runners"][key(sel if (isinstance(sel, (tuple, list)) or (isinstance(sel, str) and ":" in sel)) else int(sel))]
                     if r["status"] != "REMOVED":
                         r["status"] = res
                 st["version"] += 1
@@ -546,6 +549,15 @@ def make_strategy_classes():
                         if len(act[1]) in ex_at:
                             t.execute()
                     out = "txn"
+                elif k == "PA":  # ["PA", i, client index]: offer an order that was refused earlier again, through a (possibly different) client
+                    order = self.order_at(act[1])
+                    if order is None or order.status is None or order.status.name != "VIOLATION" or order.id in market.blotter:
+                        out = "noorder"
+                    else:
+                        if pre:
+                            w.safe(pre, w, self, market, act, order)
+                        cl = w.clients[act[2]] if act[2] < len(w.clients) else None
+                        out = market.place_order(order, client=cl) if cl is not None else "noorder"
                 elif k == "NOP":
                     out = "nop"
                 else:
